@@ -60,12 +60,12 @@ func genC11(t *rapid.T) c11Case {
 		}
 		for j := 0; j < n; j++ {
 			l := fmt.Sprintf("c%d.o%d", i, j)
-			k := rapid.SampledFrom([]string{"addFact", "addFact", "addFact", "remFact", "getFact", "search", "addRule", "remRule", "disable", "enable", "event", "event"}).Draw(t, l+".k")
+			k := rapid.SampledFrom([]string{"addFact", "addFact", "addFact", "remFact", "getFact", "search", "addRule", "addLibRule", "remRule", "disable", "enable", "event", "event"}).Draw(t, l+".k")
 			x := c12Op{K: k}
 			switch k {
 			case "addFact", "remFact", "getFact":
 				x.Id = rapid.SampledFrom(c12FactIds).Draw(t, l+".id")
-			case "addRule", "remRule", "disable", "enable":
+			case "addRule", "addLibRule", "remRule", "disable", "enable":
 				x.Id = rapid.SampledFrom(c12RuleIds).Draw(t, l+".id")
 			}
 			ops = append(ops, x)
@@ -82,6 +82,9 @@ type c11Engine struct {
 }
 
 func newC11Engine(linear, check bool, ttl int) (*c11Engine, error) {
+	// "the very first requests after start-up": forget what the process
+	// has learned on first use so far (timer names)
+	core.ClearTimerHistories()
 	conf := sys.ExampleConfig()
 	conf.UnindexedState = linear
 	conf.CheckExistence = check
@@ -101,6 +104,17 @@ func newC11Engine(linear, check bool, ttl int) (*c11Engine, error) {
 	}
 	hs, err := service.NewHTTPService(newCtx(), &service.Service{System: s})
 	return &c11Engine{s, hs}, err
+}
+
+// c11Rule is the rule an addRule / addLibRule request writes.  The library
+// variant has the same action text in every location ("libtag()") and gets
+// the client-specific tag from a library given as explicit code.
+func c11Rule(x c12Op, v string) M {
+	rule := mkRule(M{"go": "1"}, v)
+	if x.K == "addLibRule" {
+		rule["action"] = M{"code": "libtag()", "opts": M{"libraries": A{"function libtag() { return '" + v + "'; }"}}}
+	}
+	return rule
 }
 
 // do performs one request for a location and renders the result.
@@ -154,8 +168,8 @@ func (e *c11Engine) do(http bool, loc string, x c12Op, v string) string {
 		}
 		sort.Strings(rows)
 		return strings.Join(rows, ",")
-	case "addRule":
-		bs, _ := json.Marshal(mkRule(M{"go": "1"}, v))
+	case "addRule", "addLibRule":
+		bs, _ := json.Marshal(c11Rule(x, v))
 		_, err := e.s.AddRule(ctx, loc, x.Id, string(bs))
 		return res("ok", err)
 	case "remRule":
@@ -202,10 +216,10 @@ func (e *c11Engine) doHTTP(loc string, x c12Op, v string) string {
 	case "search":
 		uri = "/api/loc/facts/search"
 		q.Set("pattern", `{"v":"?v"}`)
-	case "addRule":
+	case "addRule", "addLibRule":
 		uri = "/api/loc/rules/add"
 		q.Set("id", x.Id)
-		bs, _ := json.Marshal(mkRule(M{"go": "1"}, v))
+		bs, _ := json.Marshal(c11Rule(x, v))
 		q.Set("rule", string(bs))
 	case "remRule":
 		uri = "/api/loc/rules/rem"
@@ -280,7 +294,7 @@ func runC11(c c11Case) *vlib.Outcome {
 		loc := fmt.Sprintf("loc%d", ci)
 		for j, x := range ops {
 			want[ci] = append(want[ci], e.do(c.HTTP, loc, x, fmt.Sprintf("c%d.%d", ci, j)))
-			if x.K == "addFact" || x.K == "addRule" {
+			if x.K == "addFact" || x.K == "addRule" || x.K == "addLibRule" {
 				writes++
 			}
 		}
